@@ -1,7 +1,7 @@
 ENGINES = [
     {"name": "crashmc", "path": "mc/crashmc.py", "serves_properties": ["C07"],
      "kind_free_text": "crash-point enumeration over the syscall log (strace) of the real writer: all byte prefixes of the write sequence, recovery and restart executed on the real library"},
-    {"name": "gridmc", "path": "mc/checks", "serves_properties": ["C18"],
+    {"name": "gridmc", "path": "mc/checks", "serves_properties": ["C12", "C18"],
      "kind_free_text": "exhaustive enumeration of finite option lattices / member lists crossed with small branch-covering data alphabets, each point compared with an oracle independent of REBOUND"},
     {"name": "histmc", "path": "mc/histmc.py", "serves_properties": ["C05", "C06", "C08", "C09", "C13", "C14", "C15", "C17"],
      "kind_free_text": "explicit-state breadth-first exploration of operation histories on the real library object (state = history, canonical digest de-duplication, reference-model oracle on every transition)"},
@@ -10,6 +10,14 @@ NOTES = ("All checks explore the real implementation rebuilt from /repo's workin
          "so traces_validated_against_impl equals the number of executed transitions. known_findings.json lists repaired defects (fixed:) and recorded ones.")
 NOT_APPLICABLE = {}
 CHECKS = {
+    "C12": {
+        "engine": "gridmc", "category": "exploration",
+        "technique": "exhaustive enumeration of the lattice N x N_active x mass pattern x state set x coordinate system x variant, each point compared with the textbook definition evaluated in exact rational arithmetic",
+        "text": "Every (N in 1..6, N_active in 1..N) x 5 mass patterns (equal, ratios down to 1e-15, zero-mass test particles, a zero-mass active body, massive test particles) x 2 state sets x {Jacobi, democratic heliocentric, WHDS, barycentric}: "
+                "forward maps (posvel, posvelacc, acc) against the definition in exact rational arithmetic; slot 0 = (total active mass, centre of mass position/velocity/acceleration); variants agree with one another; "
+                "inverse(forward(x)) = x into a mass-preloaded destination and into a stale scratch destination (only m0 valid), pos-only inverse = position part of posvel inverse, destination masses restored; barycentric inverse acc map fed with exact barycentric accelerations.",
+        "note": "Tolerance 64(N+2)*u*scale amplified by the mass-ratio conditioning (M/m0, M/m_min for recovering body 0). reb_particles_transform_inertial_to_barycentric_acc is declared but not implemented in the tree and is therefore not called.",
+    },
     "C15": {
         "engine": "histmc", "category": "model_checking",
         "technique": "exhaustive enumeration of particle placements x boundary x root layout x module x operation histories on the real ASan-built library, with a boundary oracle and a read-only tree walker evaluated after every operation",
